@@ -7,6 +7,7 @@ From SCC Require Import Model.RunFun2Core.
 From SCC Require Import Model.RunSubst.
 From SCC Require Import Model.RunRT.
 From SCC Require Import Model.RunLin.
+From SCC Require Import Base.Sexp Model.RunBase Model.RunRV.
 Open Scope string_scope.
 
 Definition dispatch (cmd : string) (input : string) : string :=
@@ -22,5 +23,7 @@ Definition dispatch (cmd : string) (input : string) : string :=
   | "fun2core" => run_fun2core input
   | "subst" => run_subst input
   | "rt" => run_rt input
+  | "codegen-rv" => run_codegen_rv input
+  | "sem-rv" => run_sem_rv input
   | _ => "BAD - unknown command " ++ cmd ++ nl
   end.
